@@ -159,8 +159,10 @@ class Sched:
     def me(self):
         return self.idents[threading.get_ident()]
 
-    def run(self, fns, join_timeout=20.0):
-        """fns: one callable per thread.  -> True when every thread ran to its end"""
+    def run(self, fns, join_timeout=6.0):
+        """fns: one callable per thread.  -> True when every thread ran to its end
+        (a case takes ~50 ms; join_timeout only matters when a thread blocks outside the scheduler's control,
+        e.g. on a lock that is not the proxied guard attribute: then the case is reported as stuck)"""
         threads = []
 
         def body(i, fn):
@@ -199,9 +201,9 @@ class Sched:
             self._abort()
         else:
             self.sems[first].release()
-        self.done.acquire(timeout=join_timeout)
+        signalled = self.done.acquire(timeout=join_timeout)
         for th in threads:
-            th.join(join_timeout)
+            th.join(join_timeout if signalled else 0.2)
         ok = (not self.stuck) and all(not th.is_alive() for th in threads)
         if not ok:
             self.stuck = True
